@@ -11,7 +11,7 @@ theorem evalB_cmp_int (o : Oracles) (env : Env) (r : Row) (c : String) (v ns : I
     (hc : r.get c = .int v) (hf : cmpSql op = some fn) :
     evalB o env r (.logical fn [.raw c, .int ns]) = cmpInt op v ns := by
   cases op <;> simp [cmpSql] at hf <;> subst hf <;>
-    simp [evalB, evalE, cmpOp, hc, cmpInt, int_beq, Val.cmpLe] <;>
+    simp [evalB, evalE, cmpOp, hc, cmpInt, int_beq, Val.cmpLe, Val.cmpLt] <;>
     (rw [Bool.eq_iff_iff]; simp <;> omega)
 
 theorem evalE_match (o : Oracles) (env : Env) (r : Row) (x : Expr) (s p : Bytes) (hx : evalE o env r x = .str s) :
